@@ -3,7 +3,7 @@ from .. import simcheck
 
 
 def main(tier, seed):
-    rep = simcheck.sim_main("C18", tier, seed, ["F5:overbook,wide:overbook,branch:overbook"])
+    rep = simcheck.sim_main("C18", tier, seed, ["F5:overbook,wide:overbook,branch:overbook,scale:overbook"])
     return rep.finish()
 
 
